@@ -120,6 +120,7 @@ def run(rep, tier, seed):
     stats = {"modules": 0, "functions": 0, "obligations": 0, "discharged": 0, "items": 0, "skipped": 0, "undecided": 0,
              "constraints": 0, "runtime": 0}
     samples = []
+    seen_rt = set()
     for name in sorted(idx):
         if not idx[name]["ok"]:
             continue
@@ -127,6 +128,23 @@ def run(rep, tier, seed):
         stats["modules"] += 1
         cx.compute_mins()
         r = rc.model_ref(g, name)
+        # (d) runtime templates, per instantiation in this translation unit
+        for did, (fname, targs, node) in cx.mod.spec.items():
+            if fname not in ("read_le", "read_be", "write_le", "write_be"):
+                continue
+            sig = (fname, str(targs[0]), int(targs[1]))
+            if sig in seen_rt:
+                continue
+            seen_rt.add(sig)
+            cls = cx.mod.runtime.get("slice" if fname.startswith("read") else "Builder")
+            ev = cxxeval.RuntimeEval(cx.mod, cls, fname, targs, node).run()
+            stats["runtime"] += 1
+            probs = ev.verdict() + [o.what for o in ev.obls if not o.ok]
+            if ev.was_skipped:
+                continue
+            for pr in probs[:1]:
+                rep.add(f"C14|cxx|runtime|{fname}", f"packet_runtime.h {fname}<{targs[0]}, {targs[1]}>: {pr}",
+                        f"packet_runtime.h {fname}<{targs[0]}, {targs[1]}>")
         views, builders, structs = cx.kinds()
         for decl, c in structs.items():
             check_parse(rep, name, cx, r, decl, c, stats, samples, False)
@@ -144,5 +162,8 @@ def run(rep, tier, seed):
                         "functions that contain compile errors are skipped here and reported by C10",
                         "getter loops of the form `while (size > 0) take K` rely on the length being a multiple of K "
                         "(established by Parse's `% K` rejection): counted as undecided, not as discharged"]
+    if stats["runtime"] < 16:
+        rep.add("C14|coverage-floor|runtime", f"only {stats['runtime']} runtime template instantiations evaluated (floor 16)",
+                "corpus")
     if stats["functions"] < 300:
         rep.add("C14|coverage-floor", f"only {stats['functions']} functions evaluated (floor 300)", "corpus")
